@@ -1250,7 +1250,16 @@ def oracle_docs(o):
             if not unchanged:
                 fails.append(("NO_SYNC but document %s changed" % ddoc, None))
         elif ds == "copy":
-            continue  # an ordinary file: oracle_files
+            # an ordinary file.  Job documents are judged by oracle_files (they are part of the job
+            # directory walk); the project document is a file of its own: present on both sides with
+            # different content it may be overwritten only if the file strategy says yes.
+            if ddoc == FN_PDOC and before_file is not None and not unchanged:
+                a, b = o.s0.get(sdoc), before_file
+                v = strategy_verdict(opts, ddoc, a[3], b[3]) if a is not None else False
+                if v is not True:
+                    fails.append(("conflicting file %s was overwritten although the strategy %s" % (
+                        ddoc, "is missing" if v is None else "says no"), None))
+            continue
         elif ds == "update":
             new = dict(d)
             new.update(s)
